@@ -148,7 +148,8 @@ class Models05(MC.MarshalModels):
 
 
 # ----------------------------------------------------------------------------------- bounded part
-class Budget(Exception):
+class Budget(BaseException):
+    # not an Exception: code under test that catches Exception (to retry, to translate errors) must not swallow the budget
     pass
 
 
@@ -257,6 +258,84 @@ HOSTILE_SIGS = ['ai' * 16, 'ai' * 30, '(' + 'ay' * 40 + ')', 'a(' + 'ai' * 20 + 
                 '{ss}', 'v' * 200, 'a(' + 'i' * 250 + ')', 'z', 'a~', '()', 'a(v)', 'av', 'a{vv}', 'a{sa{sa{sv}}}', '\x00', 'ai(', 'a)', 'a}']
 
 
+def growth_cases():
+    """'work proportional to its length' as a growth law: for families of hostile messages parameterised by a scale, doubling the
+    scale (which doubles the length) may not much more than double the interpreter steps (counts are deterministic)"""
+    from txdbus import marshal, message
+    from . import wire_ref as W
+
+    def oversized_signature(k):
+        # header field 8 sent as a STRING variant: a 'signature' of 4k+4 characters, k zero-size members per array element,
+        # and k/8 elements
+        sig = 'a(' + '()' * k + 'y)'
+        nel = max(2, k // 8)
+        elems = b''.join(b'\x01' + (b'\0' * 7 if i < nel - 1 else b'') for i in range(nel))
+        body = struct.pack('<I', len(elems)) + b'\0' * 4 + elems
+        arr = [[1, W.Variant('o', '/o')], [3, W.Variant('s', 'M')], [8, W.Variant('s', sig)]]
+        head = W.encode('yyyyuua(yv)', [ord('l'), 1, 0, 1, len(body), 1, arr], 0, True)
+        raw = head + W.pad(len(head), 8) + body
+        return raw, (lambda: message.parseMessage(raw, []))
+
+    def nested_variants(k):
+        # v holding (v) holding ... holding u, the innermost value cut off
+        data = b''
+        for _ in range(k):
+            data += b'\x03(v)\0'
+            data += b'\0' * ((-len(data)) % 8)
+        data += b'\x01u\0'
+        return data, (lambda: marshal.unmarshal('v', data, 0, True))
+
+    def many_strings(k):
+        elems = b''.join(struct.pack('<I', 3) + b'abc\0' for _ in range(k))
+        data = struct.pack('<I', len(elems)) + elems
+        return data, (lambda: marshal.unmarshal('as', data, 0, True))
+
+    def many_dict_entries(k):
+        elems = b''.join(struct.pack('<I', 1) + b'k\0' + b'\x01y\0' + b'\x07' + b'\0' * 6 for _ in range(k))
+        data = struct.pack('<I', len(elems)) + b'\0' * 4 + elems
+        return data, (lambda: marshal.unmarshal('a{sv}', data, 0, True))
+
+    def lying_signature_length(k):
+        # a variant whose inline signature claims a few characters but runs on for 4k more before its NUL, then an array body
+        sig = ('a(' + '()' * k + 'y)').encode('ascii')
+        nel = max(2, k // 8)
+        elems = b''.join(b'\x01' + (b'\0' * 7 if i < nel - 1 else b'') for i in range(nel))
+        data = bytes([4]) + sig + b'\0'
+        data += b'\0' * ((-len(data)) % 4) + struct.pack('<I', len(elems))
+        data += b'\0' * ((-len(data)) % 8) + elems
+        return data, (lambda: marshal.unmarshal('v', data, 0, True))
+
+    def lying_header_signature_length(k):
+        # the same lie in the SIGNATURE header field of a message
+        sig = 'a(' + '()' * k + 'y)'
+        nel = max(2, k // 8)
+        elems = b''.join(b'\x01' + (b'\0' * 7 if i < nel - 1 else b'') for i in range(nel))
+        body = struct.pack('<I', len(elems)) + b'\0' * 4 + elems
+        arr = [[1, W.Variant('o', '/o')], [3, W.Variant('s', 'M')]]
+        head = bytearray(W.encode('yyyyuua(yv)', [ord('l'), 1, 0, 1, len(body), 1, arr], 0, True))
+        head += b'\0' * ((-len(head)) % 8)
+        field = bytes([8, 1]) + b'g\0' + bytes([4]) + sig.encode('ascii') + b'\0'
+        head += field
+        struct.pack_into('<I', head, 12, len(head) - 16)
+        raw = bytes(head) + b'\0' * ((-len(head)) % 8) + body
+        return raw, (lambda: message.parseMessage(raw, []))
+
+    for name, fam, scale in (('body signature sent as an oversized STRING header field', oversized_signature, 200), ('nested variants', nested_variants, 20),
+                             ('variant whose inline signature runs past its declared length', lying_signature_length, 200),
+                             ('message whose SIGNATURE header field runs past its declared length', lying_header_signature_length, 200),
+                             ('array of strings', many_strings, 200), ('array of dict entries with variant values', many_dict_entries, 100)):
+        d1, f1 = fam(scale)
+        d2, f2 = fam(2 * scale)
+        s1, o1 = steps_of(f1, 600000)
+        if o1 == 'BUDGET':
+            return '%s: %d bytes take more than %d interpreter steps' % (name, len(d1), s1 - 1), {'family': name, 'scales': [scale]}
+        s2, o2 = steps_of(f2, 3 * s1 + 2000)
+        if o2 == 'BUDGET' or s2 > 3 * s1 + 2000:
+            return '%s: %d bytes take %d interpreter steps, %d bytes take %s%d (%s): more than proportional to the length' % (
+                name, len(d1), s1, len(d2), '> ' if o2 == 'BUDGET' else '', s2, o2), {'family': name, 'scales': [scale, 2 * scale]}
+    return None, None
+
+
 def bounded(tier, seed):
     with address_space_cap():
         return bounded_(tier, seed)
@@ -270,6 +349,10 @@ def bounded_(tier, seed):
     def fail(what, inp, steps, out, limit):
         return n, '%s: %s after %d interpreter steps (budget %d)' % (what, out, steps, limit), inp
 
+    n += 1
+    f, inp = growth_cases()
+    if f:
+        return n, f, inp
     # 1. hostile signatures against hostile data (unmarshal directly, as parseMessage does for the body)
     datas = [b'', b'\0' * 64, struct.pack('<I', 4) + b'\0' * 4 + b'abcd' * 8, struct.pack('<I', 2**32 - 1) + b'\xff' * 60, struct.pack('<I', 2**31) + b'\0' * 60, struct.pack('>I', 2**31 + 8) + b'\0\0\0\1' * 15,
              struct.pack('<I', 2**30) + struct.pack('<i', -5) * 15, struct.pack('<I', 1000) + struct.pack('<I', 3) + b'abc\0' + struct.pack('<i', -13) + b'\0' * 16,
